@@ -120,6 +120,7 @@ def run_history(ns, rec, hist):
         return
     out = bytes(w.to_bytearray())
     r = ns.EoReader(out)
+    kept = []
     for i, (name, args, want) in enumerate(expect):
         try:
             got = getattr(r, name)(*args)
@@ -132,6 +133,13 @@ def run_history(ns, rec, hist):
         if got != want or type(got) is not type(want):
             kind = "string" if isinstance(want, str) else "bytes" if isinstance(want, bytearray) else "integer"
             rec.violation("readback-" + kind, "read #%d %s%r returned %r, written value reads as %r" % (i, name, args, got, want), {"history": hist, "bytes": out, "read_index": i})
+            return
+        kept.append((i, name, got, want))
+    # the values are usually collected first and looked at afterwards: what an earlier read returned must still be
+    # what it was once the later reads are done
+    for i, name, got, want in kept:
+        if got != want:
+            rec.violation("readback-bytes", "read #%d %s returned %r at the time; after the later reads the same object shows %r" % (i, name, want, got), {"history": hist, "bytes": out, "read_index": i})
             return
     if r.remaining != 0 or r.position != len(out):
         rec.violation("not-consumed-exactly", "after the read script remaining=%d position=%d len=%d" % (r.remaining, r.position, len(out)), {"history": hist, "bytes": out})
